@@ -276,7 +276,114 @@ def handle6 (hd a b c d e : String) : String :=
      | _, _, _, _, _, _ => "bad-op")
   | _ => "bad-op"
 
-def handle (line : String) : String :=
+
+/-! ### unit-level requests: crate-internal helpers compared one by one (hooks `verif_internals`, DESIGN.md §9) -/
+
+def showNats (l : List Nat) : String := ",".intercalate (l.map toString)
+
+def showTable (t : Table) (nl ol : Nat) : String :=
+  ",".intercalate ((List.range nl).flatMap fun i => (List.range ol).filterMap fun j =>
+    let v := t.get i j; if 0 < v then some s!"{i}.{j}.{v}" else none)
+
+def handleUnit4 (hd : List String) (so sn sr : String) : Option String :=
+  match hd with
+  | ["usnake", dl] =>
+    (match optNat dl, parseSeq so, parseSeq sn, parseNats sr with
+     | some dl, some (oOff, old), some (nOff, new), some [os, oe, ns, ne] =>
+       let E := Env.ofSeqs old new oOff nOff
+       let md := maxD (oe - os) (ne - ns)
+       let v : V := Array.replicate (2 * md) 0
+       some (match findMiddleSnake E os oe ns ne md v v { clock := dl } with
+        | .ok (vf, vb, r, w) =>
+          let rs := match r with | some (x, y) => s!"{x},{y}" | none => "none"
+          s!"ok S={rs} VF={showNats vf.toList} VB={showNats vb.toList} c={w.cmps} p={w.probes}"
+        | .error .fuel => "fuel"
+        | .error _ => "panic")
+     | _, _, _, _ => some "bad-op")
+  | ["utable", dl] =>
+    (match optNat dl, parseSeq so, parseSeq sn, parseNats sr with
+     | some dl, some (oOff, old), some (nOff, new), some [os, oe, ns, ne] =>
+       let E := Env.ofSeqs old new oOff nOff
+       some (match makeTable E os oe ns ne { clock := dl } with
+        | .ok (some t, w) => s!"ok T={showTable t (ne - ns) (oe - os)} c={w.cmps} p={w.probes}"
+        | .ok (none, w) => s!"ok T=none c={w.cmps} p={w.probes}"
+        | .error .fuel => "fuel"
+        | .error _ => "panic")
+     | _, _, _, _ => some "bad-op")
+  | ["ucpl"] | ["ucsl"] =>
+    (match parseSeq so, parseSeq sn, parseNats sr with
+     | some (oOff, old), some (nOff, new), some [os, oe, ns, ne] =>
+       let E := Env.ofSeqs old new oOff nOff
+       let r := if hd == ["ucpl"] then commonPrefixLen E os oe ns ne {} else commonSuffixLen E os oe ns ne {}
+       some (match r with
+        | .ok (l, w) => s!"ok L={l} c={w.cmps}"
+        | .error .fuel => "fuel"
+        | .error _ => "panic")
+     | _, _, _ => some "bad-op")
+  | ["ucleanup", repair] =>
+    (match parseSeq so, parseSeq sn, parseOps sr with
+     | some (oOff, old), some (nOff, new), some ops =>
+       let E := Env.ofSeqs old new oOff nOff
+       some (match cleanupDiffOps E (repair == "1") ops {} with
+        | .ok (ops, w) => s!"ok O={showOps ops} c={w.cmps}"
+        | .error .fuel => "fuel"
+        | .error _ => "panic")
+     | _, _, _ => some "bad-op")
+  | ["ushift", dir, repair, pointer] =>
+    (match pointer.toNat?, parseSeq so, parseSeq sn, parseOps sr with
+     | some pointer, some (oOff, old), some (nOff, new), some ops =>
+       let E := Env.ofSeqs old new oOff nOff
+       let fuel := 2 * opsWeight ops + 4
+       let r := if dir == "up" then shiftUp E (repair == "1") fuel ops pointer {} else shiftDown E (repair == "1") fuel ops pointer {}
+       some (match r with
+        | .ok (ops, p, w) => s!"ok O={showOps ops} P={p} c={w.cmps}"
+        | .error .fuel => "fuel"
+        | .error _ => "panic")
+     | _, _, _, _ => some "bad-op")
+  | _ => none
+
+def showSegs (l : List (Bool × Bytes)) : String :=
+  "+".intercalate (l.map fun (e, b) => (if e then "e1" else "e0") ++ showHex b)
+
+def parsePush (s : String) : Option (List (Nat × Bool × Bytes)) :=
+  if s == "-" then some [] else (s.splitOn ",").mapM fun item =>
+    match item.splitOn "." with
+    | [i, e, h] => do pure ((← i.toNat?), e == "1", (← parseHex h))
+    | _ => none
+
+def handleUnit3 (hd : List String) (body seg : String) : Option String :=
+  match hd with
+  | ["uunique"] =>
+    (match parseSeq body, parseNats seg with
+     | some (off, a), some [s, e] =>
+       some (match unique (Env.ofSeqs a a off off).oo s e with
+        | some l => s!"ok U={showNats l}"
+        | none => "panic")
+     | _, _ => some "bad-op")
+  | ["uquick"] =>
+    (match parseTokens body, parseTokens seg with
+     | some word, some cand =>
+       let wc := countsOf word
+       some s!"ok F={showRatioBits (quickLoop wc [] cand) (wc.length + cand.length)}"
+     | _, _ => some "bad-op")
+  | ["uorig", idx, len] =>
+    (match idx.toNat?, len.toNat?, parseTokens body, parseSegLines seg with
+     | some idx, some len, some lines, some segs =>
+       let ws := multiLookup 0 lines segs
+       some (match originalSlices lines.toArray ws.toArray idx len 0 none with
+        | .ok sl => "ok S=" ++ ",".intercalate (sl.map fun (i, b) => s!"{i}:{showHex b}") ++
+            " W=" ++ ",".intercalate (ws.map fun (b, i, o) => s!"{showHex b}.{i}.{o}")
+        | .error _ => "panic")
+     | _, _, _, _ => some "bad-op")
+  | ["upush", mode] =>
+    (match parsePush body with
+     | some calls =>
+       let v := calls.foldl (fun v (i, e, b) => pushValues (lnlOf mode) v i e b) #[]
+       some ("ok V=" ++ ";".intercalate (v.toList.map showSegs))
+     | none => some "bad-op")
+  | _ => none
+
+def handleCore (line : String) : String :=
   let parts := (line.splitOn "|").map (·.trimAscii.toString)
   match parts with
   | [hd, a, b, c, d, e] => handle6 hd a b c d e
@@ -376,6 +483,10 @@ def handle (line : String) : String :=
        (match parseOps body with
         | some ops => "ok C=" ++ ",".intercalate ((allChanges ops).map showChange)
         | _ => "bad-op")
+     | ["uupper", a, b] =>
+       (match a.toNat?, b.toNat? with
+        | some a, some b => s!"ok F={showRatioBits (min a b) (a + b)}"
+        | _, _ => "bad-op")
      | ["ratio", a, b] =>
        (match a.toNat?, b.toNat?, parseOps body with
         | some a, some b, some ops =>
@@ -384,6 +495,12 @@ def handle (line : String) : String :=
         | _, _, _ => "bad-op")
      | _ => "bad-op")
   | _ => "bad-op"
+
+def handle (line : String) : String :=
+  match (line.splitOn "|").map (·.trimAscii.toString) with
+  | [hd, so, sn, sr] => (handleUnit4 (words hd) so sn sr).getD (handleCore line)
+  | [hd, body, seg] => (handleUnit3 (words hd) body seg).getD (handleCore line)
+  | _ => handleCore line
 
 partial def loop (h : IO.FS.Stream) (out : IO.FS.Stream) : IO Unit := do
   let line ← h.getLine
